@@ -159,12 +159,23 @@ class Vertex(base.BaseObject):
             return self._QA_NB_INVALID
 
         if args in self.__qa_nb_cache:
-            self._CACHE_STATS[self.uid][0] += 1
+            self._qa_stats()[0] += 1
 
             return self.__qa_nb_cache[args]
 
-        self._CACHE_STATS[self.uid][1] += 1
+        self._qa_stats()[1] += 1
         return self._QA_NB_INVALID
+
+    def _qa_stats(self) -> list[int]:
+        """
+        Return (creating it if needed) the cache statistics row of this vertex.
+
+        **FOR INTERNAL USE ONLY!!**
+
+        Vertices that did not go through ``__init__`` in this process (for
+        example, unpickled ones) have no row until first use.
+        """
+        return self._CACHE_STATS.setdefault(self.uid, [0, 0, 0, 0])
 
     def _qa_neighbors_invalidate(self):
         """
@@ -177,10 +188,12 @@ class Vertex(base.BaseObject):
         -- linked, unlinked, or anything else, to maintain cache integrity and
         prevent stale data.
         """
+        # cached answers are dropped even while caching is disabled; otherwise
+        # answers stored earlier would come back stale once it is re-enabled
+        self.__qa_nb_cache = {}
         if not self.NEIGHBOR_CACHING:
             return
-        self._CACHE_STATS[self.uid][2] += 1
-        self.__qa_nb_cache = {}
+        self._qa_stats()[2] += 1
 
     def _qa_neighbors_insert(self, answer, *args):
         """
@@ -196,7 +209,7 @@ class Vertex(base.BaseObject):
         """
         if not self.NEIGHBOR_CACHING:
             return
-        self._CACHE_STATS[self.uid][3] += 1
+        self._qa_stats()[3] += 1
         self.__qa_nb_cache[args] = answer
 
     def add_to_link(self, link: Link):
